@@ -183,6 +183,9 @@ func shapeAndDefs(fd *ast.FuncDecl) (shape []string, defs []string) {
 // renaming computes old -> new for the top-level function a contract is attached to; nil when nothing is to be
 // (or can safely be) re-bound.
 func (rb *rebinder) renaming(contractFile, key string) map[string]string {
+	if os.Getenv("GOVC_NOREBIND") != "" {
+		return nil
+	}
 	// the contract file is the locked copy under <verif>/contracts-lock/<pkg dir>/; the code is in <repo>/<pkg dir>/
 	lock := filepath.Join(verifDir, "contracts-lock")
 	relDir, err := filepath.Rel(lock, filepath.Dir(contractFile))
